@@ -108,14 +108,15 @@ type cacheEntry struct {
 	v          pool.Buffer
 }
 
-var cacheEntryPool = sync.Pool{
-	New: func() any { return new(cacheEntry) },
-}
-
 func newCacheEntry() *cacheEntry {
-	return cacheEntryPool.Get().(*cacheEntry)
+	return new(cacheEntry)
 }
 
+// releaseEntry releases the buffer of e. It may be called more than once
+// for the same entry: otter sends one deletion notice per delete task (every
+// lookup that finds the node expired queues one) plus one from its expiry
+// sweep. Therefore the entry itself must not be recycled. A late notice
+// would otherwise hit an entry that is already serving another key.
 func releaseEntry(e *cacheEntry) {
 	e.l.Lock()
 	e.storedTime = time.Time{}
@@ -126,5 +127,4 @@ func releaseEntry(e *cacheEntry) {
 		e.v = nil
 	}
 	e.l.Unlock()
-	cacheEntryPool.Put(e)
 }
